@@ -252,6 +252,8 @@ def run_lemmas(ex, pid, tier, modules, only):
         L.pid = pid
         if tier == "quick":
             L.time_box_deadline = PROCESS_T0 + QUICK_TIME_BOX_S
+        else:
+            L.cross_check = True            # thorough: a sample of the queries is also given to cvc5
         return L
     n = E2_WORKERS
     if n <= 1:
@@ -275,7 +277,8 @@ def run_lemmas(ex, pid, tier, modules, only):
                 obs = [(o.lemma, o.what, o.verdict, o.model, o.path, o.detail, getattr(o, "scenario", None)) for o in L.obligations]
                 out = {"obligations": obs, "undecided": L.undecided, "samples": L.samples, "paths": L.paths, "skipped": L.skipped,
                        "selftest_traces": getattr(L, "selftest_traces", 0), "queries": ex.queries, "solver_time": ex.solver_time,
-                       "functions": set(ex.functions_executed), "summaries": set(ex.summaries_used)}
+                       "functions": set(ex.functions_executed), "summaries": set(ex.summaries_used),
+                       "cross": getattr(L, "cross_stats", None)}
                 with open(os.path.join(tmpd, "%d.pkl" % k), "wb") as f:
                     pickle.dump(out, f)
             except BaseException as e:
@@ -315,6 +318,10 @@ def run_lemmas(ex, pid, tier, modules, only):
         ex.solver_time += out["solver_time"]
         ex.functions_executed |= out["functions"]
         ex.summaries_used |= out["summaries"]
+        if out.get("cross"):
+            cs = M.__dict__.setdefault("cross_stats", {"agree": 0, "disagree": 0, "cvc5_unknown": 0})
+            for k_, v_ in out["cross"].items():
+                cs[k_] = cs.get(k_, 0) + v_
     M.samples.sort(key=lambda s_: str(s_.get("lemma", "")))
     import shutil
     shutil.rmtree(tmpd, ignore_errors=True)
@@ -330,6 +337,7 @@ def e2_run(pid, tier, modules, flavours=("on", "off"), only=None, assumptions=No
     solver_s = 0.0
     queries = 0
     replays = 0
+    cross = {}
     skipped = []
     per_flavour = {}
     seen_sig = set()
@@ -357,6 +365,9 @@ def e2_run(pid, tier, modules, flavours=("on", "off"), only=None, assumptions=No
         for (lem, why) in L.undecided:
             problems.append(("%s[%s]" % (lem, fl), why))
         skipped += ["%s[%s]" % (x, fl) for x in L.skipped]
+        if getattr(L, "cross_stats", None):
+            for k_, v_ in L.cross_stats.items():
+                cross[k_] = cross.get(k_, 0) + v_
         for ob in L.obligations:
             if ob.verdict != "violated":
                 continue
@@ -415,6 +426,7 @@ def e2_run(pid, tier, modules, flavours=("on", "off"), only=None, assumptions=No
         "engine": "mirsym (MIR -> z3 %s), loop unwinding bound %d, sound by refusal" % (__import__("z3").get_version_string(), loop_bound),
         "replayed_scenarios": replays,
         "lemmas_skipped_by_quick_time_box": skipped,
+        "second_solver_cvc5_on_sampled_queries": cross or "not run in this tier",
     }
     return {
         "name": "E2/mirsym", "engine": "e2",
